@@ -96,7 +96,7 @@ fn outs(evs: Option<&Vec<serde_json::Value>>, flat: bool) -> String {
 
 pub fn run(ctx: &mut Ctx, _name: &str) {
     let scenarios = if ctx.thorough { 400 } else { 40 };
-    let len = if ctx.thorough { 60 } else { 45 };
+    let len = if ctx.thorough { 70 } else { 55 };
     let rt = tokio::runtime::Builder::new_multi_thread().worker_threads(2).enable_all().build().expect("runtime");
     rt.block_on(async {
         for _ in 0..scenarios { scenario(ctx, len).await; }
@@ -122,24 +122,40 @@ async fn scenario(ctx: &mut Ctx, len: usize) {
         names: HashMap::new(), checkpoints: vec![], next_pid: 0 };
     ctx.directive(&format!("new tenants={}", decl.join(";")));
 
+    // forced requests: (tenant, operation number, canonical pipeline id) — own-then-foreign bursts
+    let mut forced: std::collections::VecDeque<(usize, u64, String)> = std::collections::VecDeque::new();
     for step in 0..len {
+        // every now and then: the OWNER reads one of its pipelines, and immediately afterwards every other
+        // tenant (valid key) reads the SAME id through the same endpoint — what a response cache keyed by
+        // pipeline id only, or any other state shared across tenants, would get wrong
+        if forced.is_empty() && !w.pid_real.is_empty() && ctx.rng.chance(1, 5) {
+            let mut ids: Vec<String> = w.owner.keys().cloned().collect(); ids.sort();
+            let pid = ctx.rng.pick(&ids).clone();
+            let o = w.owner[&pid];
+            let op = *ctx.rng.pick(&[4u64, 4, 9, 11, 11, 13, 2, 3]);   // get, checkpoint, metrics, logs, list, usage
+            forced.push_back((o, op, pid.clone()));
+            for t in 0..nt { if t != o { forced.push_back((t, op, pid.clone())); } }
+            if ctx.rng.chance(1, 2) { forced.push_back((o, op, pid.clone())); }
+            ctx.count("burst:own-then-foreign");
+        }
+        let force = forced.pop_front();
         // who asks
-        let (key, owner): (String, Option<usize>) = if ctx.rng.chance(1, 12) {
+        let (key, owner): (String, Option<usize>) = if let Some((t, _, _)) = &force { (w.tenants[*t].2.clone(), Some(*t)) } else if ctx.rng.chance(1, 12) {
             (format!("{}x", w.tenants[0].2), None)          // nobody's key (near miss of a real one)
         } else { let i = ctx.rng.below(nt as u64) as usize; (w.tenants[i].2.clone(), Some(i)) };
         // which pipeline id: own / foreign / nothing
         let all: Vec<String> = { let mut v: Vec<String> = w.pid_real.keys().cloned().collect(); v.sort(); v };
         let own: Vec<String> = all.iter().filter(|p| w.owner.get(*p).copied() == owner && owner.is_some()).cloned().collect();
         let foreign: Vec<String> = all.iter().filter(|p| w.owner.get(*p).copied() != owner).cloned().collect();
-        let (pid, kind) = match ctx.rng.below(10) {
+        let (pid, kind) = if let Some((t, _, p)) = &force { (p.clone(), if w.owner.get(p) == Some(t) { "own" } else { "foreign" }) } else { match ctx.rng.below(10) {
             0..=4 if !own.is_empty() => (ctx.rng.pick(&own).clone(), "own"),
             5..=8 if !foreign.is_empty() => (ctx.rng.pick(&foreign).clone(), "foreign"),
             _ if !own.is_empty() && ctx.rng.chance(1, 2) => (ctx.rng.pick(&own).clone(), "own"),
             _ => ("nope".to_string(), "none"),
-        };
+        } };
         let real_pid = w.pid_real.get(&pid).cloned().unwrap_or_else(|| "no-such-pipeline".into());
         // early in a scenario deploy more often so that there is something to attack
-        let opn = if step < 2 * nt && ctx.rng.chance(2, 3) { 0 } else { ctx.rng.below(14) };
+        let opn = if let Some((_, o, _)) = &force { *o } else if step < 2 * nt && ctx.rng.chance(2, 3) { 0 } else { ctx.rng.below(14) };
         let (opname, line, method, path, body): (&str, String, &str, String, Option<serde_json::Value>) = match opn {
             0 | 1 => {
                 let src = if ctx.rng.chance(1, 8) { "bad".to_string() } else { ctx.rng.range(-2, 5).to_string() };
@@ -175,7 +191,7 @@ async fn scenario(ctx: &mut Ctx, len: usize) {
                 ("reload", format!("reload {pid} {src}"), "POST", format!("/api/v1/pipelines/{real_pid}/reload"),
                  Some(serde_json::json!({"source": vpl(&src)})))
             }
-            13 if ctx.rng.chance(1, 3) => ("logs", format!("logs {pid}"), "GET", format!("/api/v1/pipelines/{real_pid}/logs"), None),
+            13 if force.is_some() || ctx.rng.chance(1, 3) => ("logs", format!("logs {pid}"), "GET", format!("/api/v1/pipelines/{real_pid}/logs"), None),
             _ => ("get", format!("get {pid}"), "GET", format!("/api/v1/pipelines/{real_pid}"), None),
         };
         let uses_pid = !matches!(opname, "deploy" | "list" | "usage");
